@@ -194,5 +194,41 @@ def check(case, ctx):
         shutil.rmtree(tmp, ignore_errors=True)
 
 
+def empty_selector_cases(tier):
+    return [{"adapter": a, "form": f} for a in ("stream", "jsonfile", "csvfile", "sqlite", "avro")
+            for f in ("none", "empty-text", "Selector('')", "CompiledSelector('')", "CompiledSelector(None)")]
+
+
+def check_empty_selector(case, ctx):
+    """No selector / an empty selector keeps every record, for every reader."""
+    from flow.record import RecordDescriptor, RecordReader, RecordWriter
+    from flow.record.selector import CompiledSelector, Selector
+
+    d1 = RecordDescriptor("sel/rec", FIELDS)
+    records = [d1("s%d" % i, "t", None, i, i * 2, 0.5, bool(i % 2), i, _generated=selgen.GEN) for i in range(4)]
+    ctx.nontriv()
+    ctx.cls("adapter:" + case["adapter"], "form:" + case["form"])
+    tmp = ctx.fresh_dir()
+    try:
+        url = url_for(case["adapter"], tmp)
+        w = RecordWriter(url)
+        for r in records:
+            w.write(r)
+        w.flush()
+        w.close()
+        sel = {"none": None, "empty-text": "", "Selector('')": Selector(""), "CompiledSelector('')": CompiledSelector(""),
+               "CompiledSelector(None)": CompiledSelector(None)}[case["form"]]
+        plain, e0 = iterate(lambda: RecordReader(url))
+        got, e1 = iterate(lambda: RecordReader(url, selector=sel))
+        if e0 is not None or e1 is not None:
+            raise Violation("empty-selector/raised", "%r / %r" % (e0, e1))
+        if [observe(r) for r in got] != [observe(r) for r in plain] or len(got) != len(records):
+            raise Violation("empty-selector/filters", "%s with selector %s yields %d of %d records"
+                            % (case["adapter"], case["form"], len(got), len(records)), detail=case["form"])
+    finally:
+        shutil.rmtree(tmp, ignore_errors=True)
+
+
 def parts(tier):
-    return [Part("readers", check, strategy=case_strategy(), examples=(400, 6000))]
+    return [Part("readers", check, strategy=case_strategy(), examples=(400, 6000)),
+            Part("empty-selector", check_empty_selector, cases=empty_selector_cases, exhaustive=True)]
